@@ -2,6 +2,8 @@ package script
 
 import (
 	"fmt"
+	"os"
+	"strconv"
 	"time"
 
 	"verif/harness/memnet"
@@ -98,7 +100,14 @@ func (m CMsg) String() string {
 
 // Guard is the wall-clock guard used for quiescence waits; it only turns a
 // wedged server into an "inconclusive" or (C04) a diagnosed wedge.
-var Guard = 20 * time.Second
+var Guard = guardFromEnv()
+
+func guardFromEnv() time.Duration {
+	if ms, err := strconv.Atoi(os.Getenv("VERIF_GUARD_MS")); err == nil && ms > 0 {
+		return time.Duration(ms) * time.Millisecond
+	}
+	return 20 * time.Second
+}
 
 // Sess drives one client connection.
 type Sess struct {
